@@ -170,6 +170,20 @@ def run(report: Report, n_cases: int):
         report.count(("tr", t, repr(target)), nontriv)
     evaluate_corr(report, IMPORTS, "Corr.C16", "transformed", "tr_case", cases, meta, "tr_agree", "tr_prop")
     report.sample(meta[min(7, len(meta) - 1)])
+    # the affine each emitted paint reports for itself (what traversals, clip boxes and COLRv0 components use)
+    gcases, gmeta = [], []
+    rng2 = random.Random(report.seed + 1)
+    for i in range(n_cases):
+        kind, t = gen_affine(rng2)
+        out = P.transformed(Affine2D(*t), gen_target(rng2))
+        if not hasattr(out, "gettransform") or type(out).__name__ in ("PaintGlyph", "PaintSolid", "PaintLinearGradient", "PaintRadialGradient", "PaintColrLayers"):
+            continue
+        g = tuple(out.gettransform())
+        gcases.append(f"({paintlit(out)}, {afflit(g)})")
+        gmeta.append(dict(function=type(out).__name__ + ".gettransform", paint=paint_json(out), impl_out=[str(v) for v in g]))
+        report.count(("gt", repr(out)), True)
+        report.hist("gettransform.constructor", type(out).__name__)
+    evaluate_corr(report, IMPORTS, "Corr.C16", "gettransform", "gt_case", gcases, gmeta, "gt_agree", "gt_agree")
 
     # ---- range predicates --------------------------------------------------------------
     cases, meta = [], []
